@@ -85,6 +85,7 @@ func c09Alphabet(dates []string) []jr.Dir {
 			jr.Dir{Kind: jr.Assert, Date: d, MultiLine: true, Bals: []jr.Bal{{Acc: accSavings, Qty: "0", Com: "CHF"}}},
 			jr.P(d, "USD", "0.9", "CHF"),
 			jr.P(d, "EUR", "1.080", "CHF"),
+			jr.P(d, "CHF", "1.2", "USD"), // same pair quoted the other way round, with a spread: the later one of a day wins
 			jr.C(d, accSavings),
 			jr.O(d, "Assets:Später"),
 		)
